@@ -5,6 +5,8 @@
 (*   {"ev":"reset","kind","origin"}            a new instance                  *)
 (*   {"ev":"call","op","tok","m",              the call (abstract argument)    *)
 (*    "ok","rm","rn","panic",                  what it returned                *)
+(*    "nondet","freshsame",                    repeated evaluations differed / *)
+(*                                             a fresh instance answers alike  *)
 (*    "argsame","descsame","defsame",          argument / self-description /   *)
 (*                                             defaults unchanged (vs. a fresh *)
 (*                                             instance, decided on the real   *)
@@ -14,10 +16,14 @@
 (* Instance.tla - one goroutine, all deviations FALSE: the design the property *)
 (* demands - through the logged calls: a call line is Start with the logged    *)
 (* call, the memory-access steps are silent, Return consumes the line.  A line *)
-(* is ACCEPTED iff the logged result is one the pure operator admits, equals   *)
-(* every earlier result of the same call on this instance (Deterministic), the *)
-(* argument and the self-description are unchanged and the logged defaults are *)
-(* the decoded declared defaults (CacheIntegrity on the real values).          *)
+(* is ACCEPTED iff the logged result is one the pure operator admits (a         *)
+(* difference here alone is model detail: reported as "result", which the      *)
+(* orchestrator records as drift), equals every earlier result of the same     *)
+(* call on this instance and did not vary over repeated evaluations            *)
+(* (Deterministic), equals the answer of a fresh instance (HistoryFree on the  *)
+(* real values), the argument and the self-description are unchanged and the   *)
+(* logged defaults are the decoded declared defaults (CacheIntegrity on the    *)
+(* real values).                                                               *)
 (* Histories are longer and arguments wider than the enumerated universe       *)
 (* (arbitrary object arguments).  Rejected lines are written to VERIF_OUT and  *)
 (* the run continues, so that one defect does not hide the lines behind it;    *)
@@ -116,7 +122,9 @@ Why(e) ==
     IN  (IF e.panic THEN {"panic"} ELSE {})
         \cup (IF ~e.panic /\ LRes(e) \notin want THEN {"result"} ELSE {})
         \cup (IF mine \notin want THEN {"model"} ELSE {})                 \* the repaired design itself is pure
-        \cup (IF \E s \in seen : s.op = e.op /\ s.arg = LArg(e) /\ s.res # LRes(e) THEN {"nondeterministic"} ELSE {})
+        \cup (IF e.nondet \/ \E s \in seen : s.op = e.op /\ s.arg = LArg(e) /\ s.res # LRes(e)
+              THEN {"nondeterministic"} ELSE {})
+        \cup (IF ~e.freshsame THEN {"history"} ELSE {})
         \cup (IF ~e.argsame THEN {"argument"} ELSE {})
         \cup (IF ~e.descsame THEN {"describe"} ELSE {})
         \cup (IF ~e.defsame THEN {"defaults"} ELSE {})
